@@ -142,7 +142,8 @@ ASSUME = ['rules that raise a non-Exception BaseException propagate (stated in t
 
 
 def main(argv):
-    return run_check('C04', [RulesFitsStream()], argv, trusted_base=TRUSTED, assumptions=ASSUME)
+    return run_check('C04', [RulesFitsStream()], argv, trusted_base=TRUSTED, assumptions=ASSUME,
+                     translated=('checker',))
 
 
 if __name__ == '__main__':
